@@ -414,7 +414,7 @@ theorem dotFrom_eq (S I : Arr) (n r : Nat) : dotFrom S I n r = sumTo n (fun k =>
   | zero => rfl
   | succ n ih =>
     rw [dotFrom, ih, sumTo_succ_front]
-    simp only [Nat.add_zero]
+    simp only [Nat.add_zero, Gen.stride_fold_term]
     congr 1
     apply sumTo_congr
     intro k _
@@ -1318,5 +1318,112 @@ theorem prodFrom_split (E : Arr) (n i : Nat) (hi : i < n) :
   rw [prodFrom_add, prodFrom_add, Nat.zero_add, Nat.mul_assoc]
   congr 2
   simp [prodFrom]
+
+
+/-! ### histories of element assignments -/
+
+/-- what a history of assignments leaves at index `J` (specification): the value of the LAST assignment to an index
+    tuple that agrees with `J` in all `n` dimensions, `none` if there was no such assignment -/
+def lastWrite (n : Nat) (J : Arr) : List (List Nat × Int) → Option Int
+  | [] => none
+  | w :: ws => match lastWrite n J ws with
+    | some v => some v
+    | none => if (List.range n).all (fun k => arr w.1 k == J k) then some w.2 else none
+
+theorem Md.writes_map (a : Md) (ws : List (List Nat × Int)) : (a.writes ws).map = a.map := by
+  induction ws generalizing a with
+  | nil => rfl
+  | cons w ws ih => rw [Md.writes, ih]; rfl
+
+theorem Md.writes_length (a : Md) (ws : List (List Nat × Int)) : (a.writes ws).data.length = a.data.length := by
+  induction ws generalizing a with
+  | nil => rfl
+  | cons w ws ih => rw [Md.writes, ih]; simp [Md.set]
+
+
+/-! ### pigeonhole (for `is_exhaustive`) -/
+
+/-- pigeonhole: an injection of `[0, P)` into `[0, n)` needs `P ≤ n` -/
+theorem pigeon : ∀ (n P : Nat) (f : Nat → Nat), (∀ q, q < P → f q < n) →
+    (∀ q q', q < P → q' < P → f q = f q' → q = q') → P ≤ n := by
+  intro n
+  induction n with
+  | zero =>
+    intro P f hr _
+    cases P with
+    | zero => exact Nat.le_refl _
+    | succ P => exact absurd (hr 0 (Nat.succ_pos _)) (Nat.not_lt_zero _)
+  | succ n ih =>
+    intro P f hr hinj
+    cases P with
+    | zero => exact Nat.zero_le _
+    | succ P =>
+      -- move the value n (if taken) to the last argument P
+      let g : Nat → Nat := fun q => if f q = n then f P else f q
+      have hg : P ≤ n := by
+        apply ih P g
+        · intro q hq
+          show (if f q = n then f P else f q) < n
+          by_cases h : f q = n
+          · rw [if_pos h]
+            have hP := hr P (Nat.lt_succ_self _)
+            have hne : f P ≠ n := fun h' => by
+              have := hinj q P (Nat.lt_succ_of_lt hq) (Nat.lt_succ_self _) (h.trans h'.symm)
+              omega
+            omega
+          · rw [if_neg h]
+            have := hr q (Nat.lt_succ_of_lt hq)
+            omega
+        · intro q q' hq hq' hgq
+          have hqs := Nat.lt_succ_of_lt hq
+          have hqs' := Nat.lt_succ_of_lt hq'
+          have hPs := Nat.lt_succ_self P
+          show q = q'
+          have hgq' : (if f q = n then f P else f q) = (if f q' = n then f P else f q') := hgq
+          by_cases h : f q = n <;> by_cases h' : f q' = n
+          · exact hinj q q' hqs hqs' (h.trans h'.symm)
+          · rw [if_pos h, if_neg h'] at hgq'
+            have := hinj P q' hPs hqs' hgq'
+            omega
+          · rw [if_neg h, if_pos h'] at hgq'
+            have := hinj q P hqs hPs hgq'
+            omega
+          · rw [if_neg h, if_neg h'] at hgq'
+            exact hinj q q' hqs hqs' hgq'
+      omega
+
+/-- an injection of `[0, n)` into `[0, n)` hits every value -/
+theorem pigeon_surj (n : Nat) (f : Nat → Nat) (hr : ∀ q, q < n → f q < n)
+    (hinj : ∀ q q', q < n → q' < n → f q = f q' → q = q') (o : Nat) (ho : o < n) : ∃ q, q < n ∧ f q = o := by
+  apply Classical.byContradiction
+  intro hno
+  have hno' : ∀ q, q < n → f q ≠ o := fun q hq h => hno ⟨q, hq, h⟩
+  let g : Nat → Nat := fun q => if q = n then o else f q
+  have : n + 1 ≤ n := by
+    apply pigeon n (n + 1) g
+    · intro q hq
+      show (if q = n then o else f q) < n
+      by_cases h : q = n
+      · rw [if_pos h]; exact ho
+      · rw [if_neg h]; exact hr q (by omega)
+    · intro q q' hq hq' hg
+      have hg' : (if q = n then o else f q) = (if q' = n then o else f q') := hg
+      by_cases h : q = n <;> by_cases h' : q' = n
+      · omega
+      · rw [if_pos h, if_neg h'] at hg'
+        exact absurd hg'.symm (hno' q' (by omega))
+      · rw [if_neg h, if_pos h'] at hg'
+        exact absurd hg' (hno' q (by omega))
+      · rw [if_neg h, if_neg h'] at hg'
+        exact hinj q q' (by omega) (by omega) hg'
+  omega
+
+
+theorem offsetLeft_congr' (n : Nat) (E : Arr) {I J : Arr} (h : ∀ k, k < n → I k = J k) : offsetLeft n E I = offsetLeft n E J :=
+  Mapping.offset_congr ⟨.left, n, E, fun _ => 0⟩ h
+
+theorem offsetStride_congr' (n : Nat) (S : Arr) {I J : Arr} (h : ∀ k, k < n → I k = J k) : offsetStride n S I = offsetStride n S J :=
+  Mapping.offset_congr ⟨.stride, n, fun _ => 0, S⟩ h
+
 
 end DV.C14
